@@ -4,7 +4,8 @@ A history database is built through the real History.flush from rows whose entri
 40-bit transaction numbers (strictly increasing per script hash).  The compaction is then run
 with the tool's own loop (open_for_compacting; comp_cursor; _compact_history(limit) until done;
 set_flush_count) with max_hist_row_entries 2 or 3 and the batch limit a symbolic integer, and is
-- completed, or stopped after a batch and resumed, or stopped and abandoned by a normal start.
+- completed, or stopped after a batch and resumed, or stopped and abandoned by a normal start, or
+  completed, followed by more indexing and a second complete compaction.
 At every stage get_txnums of every script hash must equal the original list; afterwards a
 further flush and a History.backup at a symbolic threshold are applied on top and compared with
 the reference.  Shapes respect the property's own restriction (no script hash ends up with more
@@ -86,11 +87,11 @@ def scenario(shape):
         sim.open()
         ref = _build(sim, eng, shape)
         _check(sim, eng, ref, 'built')
-        limit = eng.fresh_int('limit', 1, None)
+        limit = eng.fresh_int('limit', 1, None) if shape.get('sym_limit', True) else 8 * 1000 * 1000
         hist = _reopen(sim, True)
         hist.max_hist_row_entries = shape['row']
         mode = shape['mode']
-        if mode == 'complete':
+        if mode in ('complete', 'twice'):
             _tool_loop(sim, limit)
         else:
             done = _tool_loop(sim, limit, max_batches=shape['stop_after'])
@@ -107,6 +108,25 @@ def scenario(shape):
         hist = _reopen(sim, False)              # normal start (cancels an unfinished compaction)
         hist.max_hist_row_entries = shape['row']
         _check(sim, eng, ref, 'normal-start')
+        if mode == 'twice':
+            # index a block that leaves the multi-row script hash 0 untouched, compact a second time,
+            # then index a block that touches it
+            import electrumx.lib.util as util
+            e = eng.fresh_word('mid2', 40)
+            if ref[2] and not sim.native:
+                eng.assume(e > ref[2][-1])
+            ref[2].append(e)
+            hist.unflushed[HX[2]].extend(util.pack_le_uint64(e)[:5])
+            hist.flush()
+            sim.db.state.flush_count = hist.flush_count
+            sim.db.write_utxo_state(sim.db.utxo_db)
+            hist = _reopen(sim, True)
+            hist.max_hist_row_entries = shape['row']
+            _tool_loop(sim, eng.fresh_int('limit2', 1, None) if shape.get('sym_limit', True) else 8 * 1000 * 1000)
+            _check(sim, eng, ref, 'compacted-twice')
+            hist = _reopen(sim, False)
+            hist.max_hist_row_entries = shape['row']
+            _check(sim, eng, ref, 'normal-start-2')
         # keep indexing: one more flush, then undo back to a symbolic transaction count
         import electrumx.lib.util as util
         for i in (0, 2):
@@ -197,6 +217,10 @@ def shapes(tier):
             {'row': 3, 'flushes': [(4, 1, 0), (1, 1, 3), (1, 0, 1)]},              # a row longer than a compacted row
             {'row': 2, 'flushes': [(2, 0, 0), (0, 2, 0), (0, 0, 2)]},              # rows already of compacted size
         ]
+    out.append({'row': 2, 'flushes': [(2, 1, 0), (2, 0, 1), (1, 1, 1)], 'mode': 'twice', 'sym_limit': tier != 'quick'})
+    if tier == 'thorough':
+        out.append({'row': 2, 'flushes': [(2, 1, 1), (2, 1, 0), (2, 0, 1), (0, 1, 1)], 'mode': 'twice'})
+        out.append({'row': 3, 'flushes': [(3, 0, 1), (3, 2, 0), (2, 0, 2)], 'mode': 'twice'})
     for b in bases:
         out.append(dict(b, mode='complete'))
         for stop in (1, 2):
